@@ -11,3 +11,19 @@ mod traits;
 use orderer::CausalOrderer;
 pub use processor::{Orderer, OrdererError};
 pub use traits::Ordering;
+
+/// Verification hooks: the crate-private causal orderer, and an operation type implementing
+/// `Ordering` (replay programs can't implement it themselves because of the orphan rule): the
+/// extensions of the header are the list of dependencies.
+#[cfg(p2panda_p2panda_verif)]
+pub mod verif {
+    use p2panda_core::{Hash, Operation};
+
+    pub use super::orderer::CausalOrderer;
+
+    impl super::Ordering<Hash> for Operation<Vec<Hash>> {
+        fn dependencies(&self) -> &[Hash] {
+            &self.header.extensions
+        }
+    }
+}
